@@ -78,3 +78,10 @@ check('C14', 'exploration', 'model-based property testing of start/shutdown hist
       'parked in traced code across the shutdown; hooks are compared by identity before/after, timer thread liveness, '
       'plugin shutdown counts, started flag and absence of any action after shutdown are asserted after every step.',
       'All lifecycle calls from one thread; restart after a completed shutdown is outside the statement and not generated.')
+check('C20', 'fault_enumeration', 'property-based plugin-set generation + enumeration of fault placements, metamorphic oracle (fault-free vs faulty run)',
+      'Generated plugin sets (synthetic modules imported by the real loader; missing / inactive / raising constructors) run '
+      'start -> two hits of a snapshot+log+metrics+span tracepoint -> shutdown fault-free, then once per placement '
+      '(plugin, callback, k-th call). The loader result (membership, order), resource precedence and - under every '
+      'placement - identical calls for every other plugin, delivered snapshots with the healthy decorations, all spans '
+      'closed, all plugins shut down, normal return of start/shutdown are asserted.',
+      'Quick samples up to 6 placements per scenario, thorough enumerates all placements of each scenario; plugin faults are Exception subclasses.')
